@@ -1547,6 +1547,8 @@ METH["logical_and"] = METH["bitwise_and"] = lambda I, t, o: t.__vc_binop__(I, as
 METH["logical_or"] = METH["bitwise_or"] = lambda I, t, o: t.__vc_binop__(I, ast.BitOr(), o, False)
 METH["where"] = lambda I, t, c, o: f_where(I, c, t, o)  # t.where(c, o) = torch.where(c, t, o)
 METH["isfinite"] = lambda I, t: f_isfinite(I, t)
+METH["isneginf"] = FUNCS["torch.isneginf"] = lambda I, t: METH["eq"](I, t, -float("inf"))
+METH["isposinf"] = FUNCS["torch.isposinf"] = lambda I, t: METH["eq"](I, t, float("inf"))
 METH["subtract"], METH["multiply"], METH["divide"], METH["true_divide"] = METH["sub"], METH["mul"], METH["div"], METH["div"]
 METH["greater"], METH["greater_equal"], METH["less"], METH["less_equal"], METH["not_equal"] = METH["gt"], METH["ge"], METH["lt"], METH["le"], METH["ne"]
 METH["minimum"] = lambda I, t, o: f_min(I, t, o)
